@@ -21,12 +21,12 @@ Record sym_entry := {
   se_section : Z;           (* int16 *)
   se_type : Z;
   se_class : Z;
-  se_aux : option (list byte)   (* one 18-byte auxiliary record *)
+  se_aux : option (list byte)   (* the auxiliary records: 18 bytes each (one, except for a long .file name) *)
 }.
 
 Definition pack_sym (e : sym_entry) : list byte :=
   se_name e ++ le 4 (se_value e) ++ le 2 (se_section e) ++ le 2 (se_type e) ++ [se_class e mod 256]
-  ++ [match se_aux e with Some _ => 1 | None => 0 end]
+  ++ [match se_aux e with Some a => zlen a / 18 | None => 0 end]      (* NumberOfAuxSymbols *)
   ++ match se_aux e with Some a => a | None => [] end.
 
 (* convertNameToBytes: threading the string table and the name->offset dedup list *)
@@ -84,16 +84,20 @@ Definition dot_data : list byte := [46; 100; 97; 116; 97].
 Definition dot_bss : list byte := [46; 98; 115; 115].
 Definition dot_file : list byte := [46; 102; 105; 108; 101].
 
+(* a [FILE] name longer than 18 bytes continues in further auxiliary records (fix in /repo; it used to be cut to 18);
+   NumberOfAuxSymbols is one byte, so at most 255 records = 4590 bytes of name *)
+Definition file_naux (srcfile : list byte) : nat := Nat.max 1 (Nat.min 255 ((Datatypes.length srcfile + 17) / 18)).
+
 Definition fixed_entries (text_size : Z) (srcfile : list byte) : list sym_entry :=
   [ {| se_name := pad_to 8 dot_file; se_value := 0; se_section := -2; se_type := 0; se_class := 103;
-       se_aux := Some (pad_to 18 srcfile) |};
+       se_aux := Some (pad_to (18 * file_naux srcfile) srcfile) |};
     sec_sym dot_text 1 text_size; sec_sym dot_data 2 0; sec_sym dot_bss 3 0 ].
 
 Definition sec_header (name : list byte) (rawsize rawptr relocptr chars : Z) : list byte :=
   pad_to 8 name ++ le 4 0 ++ le 4 0 ++ le 4 rawsize ++ le 4 rawptr ++ le 4 relocptr ++ le 4 0 ++ le 2 0 ++ le 2 0 ++ le 4 chars.
 
 Definition nrecords (es : list sym_entry) : Z :=
-  fold_right (fun e n => n + 1 + match se_aux e with Some _ => 1 | None => 0 end) 0 es.
+  fold_right (fun e n => n + 1 + match se_aux e with Some a => zlen a / 18 | None => 0 end) 0 es.
 
 Definition coff_write (text : list byte) (srcfile : list byte) (globals : list string) (symtab : list (string * Z)) : list byte :=
   let tsize := zlen text in
